@@ -385,6 +385,7 @@ def check_forwarding(c, repo):
         in_try = any(isinstance(p, ast.Try) for p in parent_chain(k))
         c.check(isinstance(n.ast, ast.Return) and n.ast.value is k and not in_try, f, k,
                 'returns the loop\'s result directly, outside any try (exceptions propagate unchanged)', witness=norm(n.ast), kind='ast', tag='forward-loop')
+    check_searcher_fresh(c, repo)
     f = repo.func('spawnbase:SpawnBase.expect')
     ks = cfg_nodes_with_call(f, lambda k: callee_last(k) == 'expect_list')
     c.need(len(ks) == 1, 'expect: expect_list call not found')
@@ -398,7 +399,38 @@ def check_forwarding(c, repo):
             c.check(isinstance(n.ast, ast.Return) and n.ast.value is k, f, k, 'the coroutine is handed back unchanged', kind='ast', tag='forward-async')
 
 
+def check_searcher_fresh(c, repo):
+    """the EOF/TIMEOUT positions the outcome is reported with are those of THIS call's list: the searcher handed to the
+    Expecter is constructed in the call, unconditionally, from the call's own pattern list (never kept from an earlier call)"""
+    for q in ('spawnbase:SpawnBase.expect_list', 'spawnbase:SpawnBase.expect_exact', 'spawnbase:SpawnBase.expect_loop'):
+        f = repo.func(q)
+        g = f.cfg
+        es = cfg_nodes_with_call(f, lambda k: callee_last(k) == 'Expecter')
+        c.need(len(es) == 1, '%s: Expecter(...) construction not found' % q)
+        n, k = es[0]
+        a = call_arg(k, 'searcher', 1)
+        c.need(a is not None, '%s: Expecter() without a searcher argument' % q)
+
+        def fresh(e):
+            if isinstance(e, ast.Call) and callee_last(e) in ('searcher_re', 'searcher_string') and e.args and isinstance(e.args[0], ast.Name):
+                return e.args[0].id in f.params
+            return False
+        if isinstance(a, ast.Name) and a.id in f.params:
+            ok, why = True, 'the caller\'s searcher object'
+        elif fresh(a):
+            ok, why = True, norm(a)
+        elif isinstance(a, ast.Name):
+            defs = [m for m in g.nodes if m.kind == 'stmt' and a.id in assigned_names(m.ast)]
+            ok = len(defs) == 1 and isinstance(defs[0].ast, ast.Assign) and fresh(defs[0].ast.value) and g.dominated_by(n, {defs[0]})[0]
+            why = norm(defs[0].ast) if defs else 'no definition'
+        else:
+            ok, why = False, norm(a)
+        c.check(ok, f, k, 'the searcher given to the Expecter is built in this call from this call\'s pattern list (or is the caller\'s own object), '
+                'so EOF / TIMEOUT are looked up at their positions in the list that was passed', witness=why, kind='flow', tag='searcher-fresh:' + f.name)
+
+
 MUTANTS = [
+    ('expect_list-cached-searcher', 'spawnbase', "        exp = Expecter(self, searcher_re(pattern_list), searchwindowsize)", "        if pattern_list is not getattr(self, '_sp', None):\n            self.searcher = searcher_re(pattern_list)\n            self._sp = pattern_list\n        exp = Expecter(self, self.searcher, searchwindowsize)", 'D7'),
     ('eof-to-timeout', 'expect', "        except EOF as e:\n            return self.eof(e)", "        except EOF as e:\n            return self.timeout(e)", 'D1'),
     ('bare-first', 'expect', "        except EOF as e:\n            return self.eof(e)\n        except TIMEOUT as e:\n            return self.timeout(e)\n        except:\n            self.errored()\n            raise",
      "        except TIMEOUT as e:\n            return self.timeout(e)\n        except Exception:\n            self.errored()\n            raise\n        except EOF as e:\n            return self.eof(e)", 'D1'),
